@@ -50,6 +50,8 @@ func runC02(c *Ctx) {
 	c02RecoveryEnds(c, "C02.10")
 	c02UnloggedMutators(c, "C02.11")
 	c01RootRelocation(c, "C02.12")
+	ruleLogReader(c, "C02.13")
+	c01RowIDs(c, "C02.14")
 }
 
 // ---- C02.11 -------------------------------------------------------------------------
